@@ -526,6 +526,9 @@ func descrN(v ssa.Value, depth int) string {
 		}
 		return "call(" + descrN(x.Call.Value, depth+1) + ")"
 	case *ssa.Phi:
+		if depth > 0 {
+			return "phi:" + x.Name()
+		}
 		var es []string
 		for _, e := range x.Edges {
 			if e == v {
